@@ -720,6 +720,9 @@ func c20Payment(c *core.Ctx) {
 // statement seeds the accumulator with the very addend (`sum = x` on the first
 // element, `sum = sum.Add(x)` afterwards): every element is still counted once.
 func firstIterationSeed(info *types.Info, body *ast.BlockStmt, cond ast.Expr, a Accum) bool {
+	if flagSeed(info, body, cond, a) {
+		return true
+	}
 	be, ok := ast.Unparen(cond).(*ast.BinaryExpr)
 	if !ok {
 		return false
@@ -765,4 +768,80 @@ func firstIterationSeed(info *types.Info, body *ast.BlockStmt, cond ast.Expr, a 
 		return true
 	})
 	return res
+}
+
+
+// flagSeed: the condition is a boolean local F (or !F) that starts false and is
+// set to true only in the branch that seeds the accumulator with the very
+// addend (`if seen { sum = sum.Add(x) } else { sum = x; seen = true }`): every
+// element is still counted once.
+func flagSeed(info *types.Info, body *ast.BlockStmt, cond ast.Expr, a Accum) bool {
+	e := ast.Unparen(cond)
+	neg := false
+	if u, ok := e.(*ast.UnaryExpr); ok && u.Op == token.NOT {
+		neg = true
+		e = ast.Unparen(u.X)
+	}
+	id, ok := e.(*ast.Ident)
+	if !ok {
+		return false
+	}
+	f := core.VarOf(info, id)
+	if f == nil || f.IsField() || !types.Identical(f.Type().Underlying(), types.Typ[types.Bool]) {
+		return false
+	}
+	// the if statement
+	var is *ast.IfStmt
+	ast.Inspect(body, func(n ast.Node) bool {
+		if x, ok := n.(*ast.IfStmt); ok && x.Cond == cond {
+			is = x
+		}
+		return is == nil
+	})
+	if is == nil {
+		return false
+	}
+	eb, _ := is.Else.(*ast.BlockStmt)
+	if eb == nil {
+		return false
+	}
+	accBlk, seedBlk := is.Body, eb // `if F { accumulate } else { seed }`
+	if neg {
+		accBlk, seedBlk = eb, is.Body
+	}
+	if !(accBlk.Pos() <= a.Assign.Pos() && a.Assign.End() <= accBlk.End()) {
+		return false
+	}
+	seeds, sets := false, false
+	for _, s := range seedBlk.List {
+		as, ok := s.(*ast.AssignStmt)
+		if !ok || len(as.Lhs) != 1 || len(as.Rhs) != 1 {
+			continue
+		}
+		if sameLoc(info, as.Lhs[0], a.Dest) && sameExpr(as.Rhs[0], a.Addend) {
+			seeds = true
+		}
+		if core.VarOf(info, as.Lhs[0]) == f {
+			if tv, ok := info.Types[as.Rhs[0]]; ok && tv.Value != nil && tv.Value.String() == "true" {
+				sets = true
+			}
+		}
+	}
+	if !seeds || !sets {
+		return false
+	}
+	// the flag starts false and is assigned nowhere else
+	for _, d := range core.NewLocalDefs(info, body).All(f) {
+		if d.RHS == nil {
+			continue // var seen bool
+		}
+		if d.Pos >= seedBlk.Pos() && d.Pos <= seedBlk.End() {
+			continue
+		}
+		if tv, ok := info.Types[d.RHS]; ok && tv.Value != nil && tv.Value.String() == "false" {
+			continue
+		}
+		return false
+	}
+	return true
 }
